@@ -79,6 +79,12 @@ def case_naturals(case):
             S = np.eye(n)
             C = np.eye(n)[:, rng.permutation(n)]
             cond = 1.0
+            if case["rep"] % 4 == 3:
+                # an orthogonal, not normalised basis: small integers on the diagonal of S
+                sdiag = rng.integers(1, 4, size=n).astype(float)
+                S = np.diag(sdiag)
+                C = np.diag(sdiag**-0.5)[:, rng.permutation(n)]
+                cond = float(sdiag.max() / sdiag.min())
         else:
             for lo, hi in ((0, n1), (n1, n)):
                 m = hi - lo
@@ -127,6 +133,10 @@ def case_naturals(case):
         return x.T.copy().T
 
     Dx, Sx = layout(D), layout(S)
+    int_overlap = spec == "diagonal" and n > 1 and case["rep"] % 2 == 1
+    if int_overlap:
+        # the same overlap matrix held as integers (np.eye(n, dtype=int), np.diag([1, 2, 3])): exactly the same numbers
+        Sx = S.astype(int)
     coeffs, occs = derive_naturals(Dx, Sx)
     # the matrices the caller holds are still the matrices that were analysed
     if not (np.array_equal(Dx, D) and np.array_equal(Sx, S)):
@@ -154,6 +164,8 @@ def case_naturals(case):
             viols.append(_v("naturals-reconstruct", f"C n C^T differs from the density matrix by {np.abs(rec - D).max():.2e}"))
     expect_accept = (occ.min() >= -eps) and (occ.max() <= occ_max + eps)
     Dx, Sx = layout(D), layout(S)
+    if int_overlap:
+        Sx = S.astype(int)
     try:
         check_dm(Dx, Sx, eps=eps, occ_max=occ_max)
         accepted = True
@@ -173,7 +185,7 @@ def case_naturals(case):
         check_dm((Dd + Dd.T) / 2, S)
     except Exception as e:
         viols.append(_v("check_dm-default", f"check_dm with default arguments rejected occupations in [0,1]: {e!r}"))
-    return viols, [f"naturals:n={n}:{spec}:cond1e{int(np.log10(cond))}"], {"n": n, "spec": spec, "cond": cond, "eps": eps, "occ": occ.tolist()}
+    return viols, [f"naturals:n={n}:{spec}{'+intS' if int_overlap else ''}:cond1e{int(np.log10(cond))}"], {"n": n, "spec": spec, "cond": cond, "eps": eps, "occ": occ.tolist()}
 
 
 def case_volume(case):
